@@ -235,14 +235,10 @@ PROPS = {
         tables=["parse"],
         determined=True,
         technique="Lean 4 theorems: array/object mapped iterators yield exactly the pre-order indices of their items/entries/keys/values given a well-formed volume column (never panicking), get_fragment = i-th pre-order fragment or remaining distance, explicit-stack traversal = pre-order; differential navigation of every container, key and fragment index of parsed documents",
-        level_text=("PARTIAL proof. Proved in Lean for all values and positions, under the hypothesis that the code map's volume column is that of a well-formed code map (the conclusion of C05): C11_array/C11_array_fragments and C11_object "
-                    "(iter_mapped never panics and yields exactly the pre-order index of each item / entry / key / value), C11_get_fragment (i-th fragment of the traversal, or Err(i − size) past the end), C11_traverse (the explicit-stack traversal is the pre-order, one step per fragment). "
-                    "Not yet proved: the keyed lookups get_mapped*/get_unique_mapped* (C11_keyed_full) and the TryFromJson conversions; they are modelled and compared: for every parsed document (all valid token documents of <= 5 tokens, 3000 generated documents) every array/object's iterators, "
-                    "every key incl. an absent and duplicated ones through all keyed variants, every fragment index 0..|T|+2, traversal/volume/count; and 14 conversion types over Vec/BTreeMap/Option/Box with a wrong-kind value planted at every position (error offset compared). "
-                    "Direct oracle on the real code: the source text sliced at each yielded offset's span re-parses to that element."),
+        level_text=("Proof on the model for every navigation API except the typed conversions. For all values and positions, under the hypothesis that the code map's volume column is that of a well-formed code map — which C05 now PROVES for every parsed document (parse_volumes; C11_parsed_array / C11_parsed_object compose the two) — : C11_array/C11_array_fragments and C11_object (iter_mapped never panics and yields exactly the pre-order index of each item / entry / key / value), C11_keyed (get_mapped*, get_unique_mapped*, get_mapped_entries*: under the C06 index invariant, which every reachable object has, they never panic and yield for exactly the entries carrying the key, in entry order, the index and the offsets iter_mapped assigns to that entry — the advance loop over (last_index, offset) is proved by induction), C11_get_fragment (i-th fragment of the traversal, or Err(i − size) past the end), C11_traverse (the explicit-stack traversal is the pre-order, one step per fragment). Not proved in Lean: the TryFromJson / TryFromJsonObject conversions (trait-generic code); they are modelled per type and compared: 14 conversion types over Vec/BTreeMap/Option/Box with a wrong-kind value planted at every position (error offset compared). Tie to /repo: for every parsed document (all valid token documents of <= 5 tokens, 3000 generated documents) every array/object's iterators, every key incl. an absent and duplicated ones through all keyed variants, every fragment index 0..|T|+2, traversal/volume/count. Direct oracle on the real code: the source text sliced at each yielded offset's span re-parses to that element."),
         level_note="Trusted: Lean kernel; model validated by correspondence; depends on C05 for the volume column (tested jointly since the code map comes from the real parser).",
         rule="request = document (navigation) or type+document (conversion); reply = all offsets / fragment kinds / error offset. Non-trivial = documents with more than one fragment, all conversions; distinct request lines",
-        strength="partial: iterators, fragment index and traversal proved; keyed lookups and conversions tested",
+        strength='iterators, keyed lookups, fragment index and traversal proved (and composed with the proved C05 code map); typed conversions tested',
         trusted_base=COMMON_TRUST,
         assumptions=["the code map is the one returned by parsing the same value (offset 0 = root)"],
     ),
